@@ -55,6 +55,14 @@ Proof.
   destruct n as [|n]; [lia|]. cbn [le_bytes firstn]. rewrite IH by lia. reflexivity.
 Qed.
 
+(* Everything below holds for ANY translated program that binds these names to these function terms: the
+   compactindexsized package, and the deprecated packages wherever their source is textually the same function. *)
+Section Generic.
+Variable prog : program.
+Hypothesis prog_uintLe : plookup "uintLe" prog = Some fn_uintLe.
+Hypothesis prog_putUintLe : plookup "putUintLe" prog = Some fn_putUintLe.
+Hypothesis prog_BucketHeader_Hash : plookup "BucketHeader.Hash" prog = Some fn_BucketHeader_Hash.
+
 (* ------------------------------------------------------------------ uintLe *)
 Local Notation z8 := [0; 0; 0; 0; 0; 0; 0; 0] (only parsing).
 
@@ -156,3 +164,4 @@ Section EntryHash.
     - change 18446744073709551615 with (2 ^ 64 - 1). rewrite Hfin by lia. rewrite N2Z.inj_mod. reflexivity.
   Qed.
 End EntryHash.
+End Generic.
